@@ -67,9 +67,9 @@ def _unit_headers():
     return res
 
 
-def list_units():
-    """primary units only: name -> property ids"""
-    return {u: [p for p in o.get('props', '').split(',') if p] for u, o in _unit_headers().items() if not o.get('alt_of')}
+def list_units(include_alternatives=False):
+    """primary units only (unless asked otherwise): name -> property ids"""
+    return {u: [p for p in o.get('props', '').split(',') if p] for u, o in _unit_headers().items() if include_alternatives or not o.get('alt_of')}
 
 
 def alternatives_of(unit):
